@@ -60,34 +60,34 @@ type Profile struct {
 
 var profiles = map[string]Profile{
 	"C01": {Name: "C01", FaultPct: 50, W: baseWeights(4).with("Purge", 2, "Backfill", 1, "Reopen", 1), MinOps: 6, MaxOps: 32, MaxKeys: 3, MaxColl: 1, SmallDoc: 15, OnDiskPct: 20, ReopenPct: 50, ExpPct: 30},
-	"C02": {Name: "C02", W: weights{"Set": 3, "Add": 2, "Delete": 3, "WriteCas": 10, "Remove": 6, "WriteWithXattrs": 6, "WriteTombstoneWithXattrs": 5,
+	"C02": {Name: "C02", FaultPct: 40, W: weights{"Set": 3, "Add": 2, "Delete": 3, "WriteCas": 10, "Remove": 6, "WriteWithXattrs": 6, "WriteTombstoneWithXattrs": 5,
 		"UpdateXattrs": 5, "RemoveXattrs": 4, "SetWithMeta": 4, "DeleteWithMeta": 3, "WriteSubDoc": 4, "SubdocInsert": 3, "SetXattrs": 2, "Update": 2,
 		"WriteResurrectionWithXattrs": 2, "DeleteWithXattrs": 1, "Purge": 1}, MinOps: 6, MaxOps: 28, MaxKeys: 2, MaxColl: 2, OnDiskPct: 10, ExpPct: 10},
-	"C05": {Name: "C05", W: weights{"Set": 4, "SetRaw": 2, "Add": 5, "AddRaw": 2, "Delete": 6, "Remove": 4, "Update": 5, "DeleteWithXattrs": 4,
+	"C05": {Name: "C05", FaultPct: 40, W: weights{"Set": 4, "SetRaw": 2, "Add": 5, "AddRaw": 2, "Delete": 6, "Remove": 4, "Update": 5, "DeleteWithXattrs": 4,
 		"WriteTombstoneWithXattrs": 4, "DeleteWithMeta": 3, "SetWithMeta": 2, "WriteCas": 7, "WriteResurrectionWithXattrs": 4, "WriteWithXattrs": 4,
 		"UpdateXattrs": 4, "SetXattrs": 4, "Incr": 2, "WriteSubDoc": 2, "RemoveXattrs": 1, "DeleteSubDocPaths": 1, "WriteUpdateWithXattrs": 3,
 		"Purge": 3, "Backfill": 5, "Touch": 1}, MinOps: 6, MaxOps: 30, MaxKeys: 2, MaxColl: 1, OnDiskPct: 10, ExpPct: 25},
-	"C06": {Name: "C06", W: weights{"Set": 4, "SetRaw": 1, "Add": 8, "AddRaw": 4, "Delete": 6, "Remove": 3, "Update": 5, "DeleteWithXattrs": 4,
+	"C06": {Name: "C06", FaultPct: 40, W: weights{"Set": 4, "SetRaw": 1, "Add": 8, "AddRaw": 4, "Delete": 6, "Remove": 3, "Update": 5, "DeleteWithXattrs": 4,
 		"WriteTombstoneWithXattrs": 4, "DeleteWithMeta": 3, "SetWithMeta": 2, "WriteCas": 10, "WriteResurrectionWithXattrs": 6, "WriteWithXattrs": 6,
 		"UpdateXattrs": 3, "SetXattrs": 3, "Incr": 2, "WriteSubDoc": 2, "WriteUpdateWithXattrs": 2, "Purge": 3}, MinOps: 6, MaxOps: 30, MaxKeys: 2, MaxColl: 1, OnDiskPct: 10, ExpPct: 10},
 	"C07": {Name: "C07", FaultPct: 50, W: weights{"Set": 3, "SetRaw": 2, "Add": 1, "Delete": 2, "WriteCas": 3, "Update": 2, "Incr": 1, "Touch": 1, "SetXattrs": 7, "UpdateXattrs": 7,
 		"RemoveXattrs": 6, "DeleteSubDocPaths": 6, "WriteWithXattrs": 9, "WriteTombstoneWithXattrs": 6, "WriteResurrectionWithXattrs": 5,
 		"WriteUpdateWithXattrs": 6, "DeleteWithXattrs": 4, "WriteSubDoc": 1, "Backfill": 1}, MinOps: 6, MaxOps: 30, MaxKeys: 2, MaxColl: 1, SmallDoc: 25, OnDiskPct: 10, ExpPct: 30},
 	"C08": {Name: "C08", FaultPct: 50, W: baseWeights(4).with("Purge", 1), MinOps: 6, MaxOps: 30, MaxKeys: 3, MaxColl: 2, SmallDoc: 10, OnDiskPct: 10, ExpPct: 30},
-	"C09": {Name: "C09", W: baseWeights(3).with("Backfill", 14, "Purge", 1), MinOps: 6, MaxOps: 26, MaxKeys: 4, MaxColl: 2, OnDiskPct: 15, ExpPct: 30},
+	"C09": {Name: "C09", FaultPct: 40, W: baseWeights(3).with("Backfill", 14, "Purge", 1), MinOps: 6, MaxOps: 26, MaxKeys: 4, MaxColl: 2, OnDiskPct: 15, ExpPct: 30},
 	"C11": {Name: "C11", FaultPct: 50, W: baseWeights(4).with("Purge", 2, "Backfill", 1, "Touch", 10, "GetAndTouchRaw", 6, "RecreateColl", 5, "PutDDoc", 3, "View", 6, "Query", 5), MinOps: 8, MaxOps: 30, MaxKeys: 2, MaxColl: 3, ReadAll: true, TwoBucketsPct: 50, OnDiskPct: 15, ExpPct: 40},
-	"C12": {Name: "C12", W: weights{"Set": 10, "SetRaw": 2, "Add": 3, "Delete": 4, "Remove": 1, "WriteCas": 4, "Update": 3, "Incr": 2, "SetXattrs": 4, "UpdateXattrs": 2,
+	"C12": {Name: "C12", FaultPct: 40, W: weights{"Set": 10, "SetRaw": 2, "Add": 3, "Delete": 4, "Remove": 1, "WriteCas": 4, "Update": 3, "Incr": 2, "SetXattrs": 4, "UpdateXattrs": 2,
 		"WriteWithXattrs": 4, "WriteTombstoneWithXattrs": 3, "WriteResurrectionWithXattrs": 2, "DeleteWithXattrs": 2, "WriteUpdateWithXattrs": 2, "WriteSubDoc": 2,
 		"Touch": 1, "Purge": 2, "SetWithMeta": 2, "DeleteWithMeta": 1, "PutDDoc": 5, "DelDDoc": 1, "View": 22, "Reopen": 1}, MinOps: 8, MaxOps: 30, MaxKeys: 4, MaxColl: 2, OnDiskPct: 20, ReopenPct: 50, ExpPct: 5, ViewBodies: true},
 	"C19": {Name: "C19", W: weights{"Set": 10, "Add": 3, "Delete": 4, "Remove": 1, "WriteCas": 4, "Update": 3, "Incr": 2, "SetXattrs": 4, "UpdateXattrs": 2,
 		"WriteWithXattrs": 4, "WriteTombstoneWithXattrs": 3, "WriteResurrectionWithXattrs": 2, "DeleteWithXattrs": 2, "WriteUpdateWithXattrs": 2, "WriteSubDoc": 2,
 		"Touch": 1, "Purge": 2, "Query": 20, "Reopen": 1}, MinOps: 6, MaxOps: 26, MaxKeys: 4, MaxColl: 3, OnDiskPct: 50, ReopenPct: 50, ExpPct: 5, ViewBodies: true, JSONOnly: true},
-	"C14": {Name: "C14", W: weights{"Set": 6, "SetRaw": 3, "Add": 4, "AddRaw": 2, "WriteCas": 5, "Delete": 3, "Remove": 1, "Update": 3, "Incr": 3, "Touch": 8, "GetAndTouchRaw": 4,
+	"C14": {Name: "C14", FaultPct: 40, W: weights{"Set": 6, "SetRaw": 3, "Add": 4, "AddRaw": 2, "WriteCas": 5, "Delete": 3, "Remove": 1, "Update": 3, "Incr": 3, "Touch": 8, "GetAndTouchRaw": 4,
 		"UpdateXattrs": 4, "WriteWithXattrs": 5, "WriteResurrectionWithXattrs": 2, "WriteTombstoneWithXattrs": 2, "WriteUpdateWithXattrs": 3, "SetXattrs": 1, "SetWithMeta": 2,
 		"DeleteWithXattrs": 1, "WriteSubDoc": 1, "Advance": 14, "Reopen": 3, "Purge": 1}, MinOps: 5, MaxOps: 26, MaxKeys: 3, MaxColl: 2, OnDiskPct: 30, ReopenPct: 100, ExpPct: 75, ShortExp: true},
 	"C04": {Name: "C04", W: baseWeights(4).with("SetWithMeta", 1, "DeleteWithMeta", 1, "Clock", 8, "Restart", 5, "Reopen", 2, "Advance", 2, "Purge", 1, "RecreateColl", 3, "HLCBurst", 3), MinOps: 6, MaxOps: 30, MaxKeys: 2, MaxColl: 2, OnDiskPct: 60, ReopenPct: 100, ExpPct: 10},
-	"C17": {Name: "C17", W: baseWeights(4).with("Purge", 3, "Backfill", 4, "Touch", 8), MinOps: 6, MaxOps: 30, MaxKeys: 2, MaxColl: 1, OnDiskPct: 10, ExpPct: 20},
-	"C18": {Name: "C18", W: weights{"Set": 6, "SetRaw": 1, "Delete": 2, "WriteSubDoc": 14, "SubdocInsert": 10, "WriteCas": 2, "SetXattrs": 2, "Add": 1, "Purge": 1, "Touch": 1}, MinOps: 5, MaxOps: 24, MaxKeys: 2, MaxColl: 1, SmallDoc: 10, OnDiskPct: 10, ExpPct: 15},
+	"C17": {Name: "C17", FaultPct: 40, W: baseWeights(4).with("Purge", 3, "Backfill", 4, "Touch", 8), MinOps: 6, MaxOps: 30, MaxKeys: 2, MaxColl: 1, OnDiskPct: 10, ExpPct: 20},
+	"C18": {Name: "C18", FaultPct: 40, W: weights{"Set": 6, "SetRaw": 1, "Delete": 2, "WriteSubDoc": 14, "SubdocInsert": 10, "WriteCas": 2, "SetXattrs": 2, "Add": 1, "Purge": 1, "Touch": 1}, MinOps: 5, MaxOps: 24, MaxKeys: 2, MaxColl: 1, SmallDoc: 10, OnDiskPct: 10, ExpPct: 15},
 }
 
 var jsonBodies = []string{`{"a":1}`, `{"a":2,"b":"x"}`, `{"n":{"m":1,"k":"v"}}`, `{"arr":[1,2,3],"s":"t"}`, `{"a":{"b":{"c":5}},"z":null}`, `{}`}
@@ -188,6 +188,18 @@ func (g *gen) xattrSet(min, max int) map[string]string {
 	return out
 }
 
+var illegalXattrNames = []string{"a.b", "$x", "x[0]", "u1.sub"}
+
+// withIllegal sometimes slips an unsupported xattr name into a list (not first).
+func (g *gen) withIllegal(names []string) []string {
+	if len(names) > 0 && g.r.Chance(8) {
+		bad := illegalXattrNames[g.r.Intn(len(illegalXattrNames))]
+		i := 1 + g.r.Intn(len(names))
+		names = append(append(append([]string{}, names[:i]...), bad), names[i:]...)
+	}
+	return names
+}
+
 func (g *gen) xattrNames(min, max int) []string {
 	n := min + g.r.Intn(max-min+1)
 	seen := map[string]bool{}
@@ -263,7 +275,7 @@ func (g *gen) macros(op *Op, set map[string]string) []Macro {
 }
 
 func (g *gen) subPath() string {
-	paths := []string{"a", "v", "a.b", "n.m", "n.x", "s", "q", "a.b.c", "w", "arr.x", "z.y", "new.deep"}
+	paths := []string{"a", "v", "a.b", "n.m", "n.x", "s", "q", "a.b.c", "w", "arr.x", "z.y", "new.deep", "a.", ".n", "a..b", "n..m"}
 	return paths[g.r.Intn(len(paths))]
 }
 
@@ -377,7 +389,7 @@ func (g *gen) op(kind string) Op {
 		op.XDel = g.xattrNames(1, 2)
 		op.CasMode = g.casMode(7, 1, 2, 1)
 	case "DeleteSubDocPaths":
-		op.XDel = g.xattrNames(1, 3)
+		op.XDel = g.withIllegal(g.xattrNames(1, 3))
 	case "WriteWithXattrs":
 		if g.r.Chance(70) {
 			op.Body = strp(g.jsonBody())
@@ -397,6 +409,13 @@ func (g *gen) op(kind string) Op {
 		}
 		op.Preserve = g.r.Chance(25)
 		op.Macros = g.macros(&op, op.Xattrs)
+		if g.r.Chance(20) {
+			// write an xattr back as stored, with macros on it: the expansions must still be refreshed
+			name := allXattrNames[g.r.Intn(len(allXattrNames))]
+			op.XEcho = []string{name}
+			delete(op.Xattrs, name)
+			op.Macros = append(op.Macros, Macro{Path: name + ".cas", Type: 0}, Macro{Path: name + ".crc", Type: 1})
+		}
 		g.exp(&op)
 	case "WriteTombstoneWithXattrs":
 		op.Xattrs = g.xattrSet(1, 2)
@@ -422,7 +441,7 @@ func (g *gen) op(kind string) Op {
 		op.Macros = g.macros(&op, op.Xattrs)
 		g.exp(&op)
 	case "DeleteWithXattrs":
-		op.XDel = g.xattrNames(0, 2)
+		op.XDel = g.withIllegal(g.xattrNames(0, 2))
 	case "WriteUpdateWithXattrs":
 		op.XNames = g.xattrNames(1, 3)
 		if g.r.Chance(15) {
@@ -516,12 +535,21 @@ func (g *gen) op(kind string) Op {
 		for i := 0; i < 1+g.r.Intn(2); i++ {
 			op.Xattrs[fmt.Sprintf("v%d", i+1)] = fams[g.r.Intn(len(fams))]
 		}
+		if g.p.Name == "C12" {
+			op.Handle = g.r.Intn(2)
+		}
 	case "DelDDoc":
 		op.Key = []string{"dd1", "dd2"}[g.r.Intn(2)]
+		if g.p.Name == "C12" {
+			op.Handle = g.r.Intn(2)
+		}
 	case "View":
 		op.Key = []string{"dd1", "dd2"}[g.r.Intn(2)]
 		op.Path = []string{"v1", "v2"}[g.r.Intn(2)]
 		op.Body = strp(g.viewParams())
+		if g.p.Name == "C12" {
+			op.Handle = g.r.Intn(2) // design documents are replaced and queried through either of two handles
+		}
 	case "Query":
 		kinds := []string{"ids", "idbody", "idge", "num", "str", "xattr", "count"}
 		if !g.p.JSONOnly {
@@ -540,6 +568,8 @@ func (g *gen) op(kind string) Op {
 		if g.r.Chance(25) {
 			op.WOpt = 1 // hold the iterator open across a write (on-disk buckets)
 		}
+		op.Amt = uint64(g.r.Intn(4)) // bit 0: adhoc=false (statement may be cached); bit 1: collect NextBytes() slices first
+
 	case "HLCBurst":
 		op.Key = ""
 		op.Coll = 0
@@ -579,6 +609,12 @@ func GenE1(prop string, seed uint64) *Program {
 	if r.Chance(p.TwoBucketsPct) {
 		prog.TwoBuckets, g.twoB = true, true
 	}
+	if prop == "C11" && !prog.TwoBuckets && r.Chance(35) {
+		// expiry must stay inside its collection: short deadlines and idle periods
+		g.p.ShortExp = true
+		g.p.W = g.p.W.with("Advance", 8)
+		p = g.p
+	}
 	nk := 1 + r.Intn(p.MaxKeys)
 	for i := 0; i < nk; i++ {
 		g.keys = append(g.keys, fmt.Sprintf("k%d", i+1))
@@ -614,6 +650,14 @@ func GenE1(prop string, seed uint64) *Program {
 		}
 	}
 	n := p.MinOps + r.Intn(p.MaxOps-p.MinOps+1)
+	if p.FaultPct > 0 && r.Chance(p.FaultPct/2) {
+		// cooperative fault point: the transaction of some operations is made to fail with BUSY right
+		// before COMMIT once or twice, which drives rosmar's retry loop (the operation must still
+		// take effect exactly once)
+		for i := 0; i < 1+r.Intn(2); i++ {
+			prog.Faults = append(prog.Faults, FaultSpec{AtOp: r.Intn(n), Kind: 5, Offset: r.Intn(2)})
+		}
+	}
 	if prog.OnDisk && p.FaultPct > 0 && r.Chance(p.FaultPct) {
 		// separate fault-injecting configuration: 1-3 one-shot disk faults inside operations
 		for i := 0; i < 1+r.Intn(3); i++ {
